@@ -758,6 +758,12 @@ func (m *c08Mon) check(pre *c08Obs, o c08Op, out string, post *c08Obs, hist inte
 			}
 		}
 	}
+	// (c') C08: a listing the owner has withdrawn is gone (it must not sell the name later)
+	if kind == "Delist" && out == OutOk {
+		if sl := post.sale(lower); sl != nil {
+			find("C08/delist-left-listing", fmt.Sprintf("Delist of %q succeeded and the listing %q is still in the store: the withdrawn listing can still sell the name", o.Name, lower))
+		}
+	}
 	// (d') C09: the holder of an open bid can always take it back
 	if kind == "CancelBid" && out != OutOk {
 		if b := pre.bid(Spell(w.user(o.S), o.Up) + lower); b != nil {
@@ -1183,6 +1189,9 @@ func (g *c08Run) deterministic() error {
 		{Kind: "Buy", S: C, Name: "harbor.quay.jkl"}, {Kind: "Bid", S: C, Name: "harbor.quay.jkl", Denom: "ujkl", Amt: 9}, {Kind: "AcceptBid", S: A, Name: "harbor.quay.jkl", T: C},
 		{Kind: "AddRecord", S: A, Name: "harbor.quay.jkl", Rec: "deep", Val: "v", Data: "d"}, {Kind: "DelRecord", S: A, Name: "harbor.quay.jkl"}, {Kind: "MakePrimary", S: A, Name: "harbor.quay.jkl"},
 		{Kind: "CancelBid", S: C, Name: "harbor.quay.jkl"}, {Kind: "Update", S: B, Name: "harbor.jkl", Data: "mine"}})
+	// a listing withdrawn under another spelling of the name is withdrawn: nobody buys through it afterwards
+	hs = append(hs, []c08Op{reg(A, c08N1), {Kind: "List", S: A, Name: c08N1, Denom: "ujkl", Amt: 900}, {Kind: "Delist", S: A, Name: "Foo.jkl"}, {Kind: "Buy", S: C, Name: c08N1},
+		{Kind: "List", S: A, Name: "FOO.jkl", Denom: "ujkl", Amt: 901}, {Kind: "Delist", S: A, Name: "fOO.jkl"}, {Kind: "Buy", S: B, Name: "foo.jkl"}, {Kind: "Update", S: A, Name: c08N1, Data: "kept"}})
 	// MsgInit hands out a generated name: never one somebody holds (the neighbours of the name of height 700 are paid
 	// for by A; B is served, C and the poor account initialise in the same block)
 	{
